@@ -688,3 +688,34 @@ pub fn boundary_param(op: &Op, len: usize) -> bool {
     _ => false,
   }
 }
+
+// ---------------------------------------------------------------------------------------
+// entry points for decoders outside proptest (fuzz target): the same soundness passes
+
+pub fn sanitize_tree(n: &mut Node) {
+  sanitize(n, 0);
+  n.renumber();
+}
+
+/// case-level pass: errors stored by Behavior/ReplaySubject (or replay()) below retry_when
+pub fn sanitize_case(mut c: Case) -> Case {
+  let mut floor = 0u32;
+  c.root.walk(&mut |n| {
+    if let Node::Un(Op::RetryWhen(RPred::CodeLt(k)), _) = n {
+      floor = floor.max(*k);
+    }
+  });
+  if floor > 0 {
+    let has_replay = c.root.has_op(&|n| matches!(n, Node::Un(Op::ReplayConn, _)));
+    let kinds = c.hots.clone();
+    let sticky = |i: usize| has_replay || matches!(kinds.get(i), Some(HotKind::Behavior(_)) | Some(HotKind::Replay));
+    for a in c.actions.iter_mut() {
+      if let Action::Emit(i, Ev::E(code)) = a {
+        if sticky(*i) && *code < floor {
+          *code = floor;
+        }
+      }
+    }
+  }
+  c
+}
